@@ -90,9 +90,14 @@ func (c pCond) yaml() (string, bool) {
 		return "maybe", true
 	case "text":
 		return c.S, true
+	case "padvar": // a condition that renders a data key whose value carries blanks around the boolean text
+		return "{{ ." + c.K + " }}", true
 	}
 	return "", false
 }
+
+// the padded boolean texts the data of the C12 cases holds (never written by any operation)
+var c12Pads = map[string]string{"padT": " true\n", "padF": "\tfalse ", "padB": " maybe "}
 
 func (a *pAct) yamlMap() map[string]any {
 	m := map[string]any{"name": a.Name}
@@ -212,6 +217,8 @@ func (c pCond) gallina() string {
 		return "CBad"
 	case "text":
 		return "(CText " + gStr(c.S) + ")"
+	case "padvar": // what the template renders to is that key's text: blanks are trimmed from the RENDERED text
+		return "(CText " + gStr(c12Pads[c.K]) + ")"
 	}
 	return "CNone"
 }
@@ -533,6 +540,10 @@ func genC12Act(r *rand.Rand, depth, maxDepth, maxFan int, name string, order int
 		}
 	case 2:
 		a.When = pCond{Kind: "eq", K: "flag", S: "yes"}
+	case 4:
+		if r.Intn(2) == 0 {
+			a.When = pCond{Kind: "padvar", K: []string{"padT", "padF", "padT", "padB"}[r.Intn(4)]}
+		}
 	case 3:
 		if r.Intn(4) == 0 {
 			a.When = pCond{Kind: "bad"}
@@ -540,6 +551,15 @@ func genC12Act(r *rand.Rand, depth, maxDepth, maxFan int, name string, order int
 	}
 	if r.Intn(3) != 0 {
 		a.Ops = append(a.Ops, pOp{Kind: "set", Data: map[string]any{"k" + fmt.Sprint(r.Intn(4)): name}})
+		if r.Intn(4) == 0 { // several actions write the same keys below one path: the later write wins
+			a.Ops[len(a.Ops)-1].Path = "cfg"
+		}
+		if r.Intn(8) == 0 { // an empty (not absent) payload sets nothing and succeeds
+			a.Ops[len(a.Ops)-1].Data = map[string]any{}
+			if r.Intn(2) == 0 {
+				a.Ops[len(a.Ops)-1].Path = "res"
+			}
+		}
 	}
 	if r.Intn(3) == 0 {
 		a.Ops = append(a.Ops, pOp{Kind: "template", Tmpl: []tpart{{Lit: "v="}, {Var: "k" + fmt.Sprint(r.Intn(4))}}, Path: "t." + name})
